@@ -42,10 +42,11 @@ class LowerRescale(RewritePattern):
         with_zp_out = AddiOp(trunced, zp_out)
         clamped_max = MinSIOp(with_zp_out, max)
         clamped_min = MaxSIOp(clamped_max, min)
-        trunced_final = TruncIOp(clamped_min, builtin.i8)
-        rewriter.replace_op(
-            op, [with_zp_in, extended, multed, shifted, trunced, with_zp_out, clamped_max, clamped_min, trunced_final]
-        )
+        new_ops = [with_zp_in, extended, multed, shifted, trunced, with_zp_out, clamped_max, clamped_min]
+        # truncate to the result type of the rescale op (nothing to do for i32 results)
+        if op.result.type != builtin.i32:
+            new_ops.append(TruncIOp(clamped_min, op.result.type))
+        rewriter.replace_op(op, new_ops)
 
 
 class LowerLinalgBody(RewritePattern):
